@@ -26,6 +26,11 @@ Theorem c05_history_total : C05_history_total.
 Proof. exact c05_history_total_proof. Qed.
 Print Assumptions c05_history_total.
 
+(* the serving obligation: a stream cursor whose LIB is still on the retained chain is served *)
+Theorem c05_serves_history : C05_serves_history.
+Proof. exact c05_serves_history_proof. Qed.
+Print Assumptions c05_serves_history.
+
 (* ---- non-vacuity: the history 11 <- 12 <- {23, 13 <- 14 <- 15} fed in the order 11, 12, 23, 13, 14, 15, two final
    blocks kept.  23 is delivered, then undone when 14 arrives; 14 finalises 12, 15 finalises 13 (and 23 is stalled).
    (a) first streamable block 1: block 11 (number 1) is its own LIB, delivered New + Irreversible.
@@ -128,5 +133,20 @@ Example c05h_nonvacuous_root :
       | _, _, _ => False
       end
   | None => False
+  end.
+Proof. vm_compute. repeat split. Qed.
+
+(* the boundary of c05_serves_history: with no final block kept (kept = 0) the cursor LIB 11 of the New cursor on 23 is
+   purged once the LIB reaches 13; the segment is then [13; 14; 15], the cursor LIB is off the chain: no source.
+   With kept = 2 (c05h_nonvacuous_meets) the hypotheses hold and the burst is served (c05h_nonvacuous_new_forked). *)
+Example c05h_nonvacuous_not_served :
+  let cfg := hub_config 1 0 in
+  let tr := fk_run cfg (fs_init LNone) hx_h in
+  let s := state_after cfg (fs_init LNone) hx_h 6%nat in
+  match nth_error (concat (map fst tr)) 3%nat, complete_segment (db s) (bref hx_b5) with
+  | Some ek, Some (sg, true) =>
+      estep ek = SNew /\ bid (eblk ek) = 23 /\ ri (elib ek) = 11 /\ map sid sg = [13; 14; 15] /\
+      block_in (ri (elib ek)) sg = false /\ blocks_from_cursor s (ev_cursor ek) = BErr
+  | _, _ => False
   end.
 Proof. vm_compute. repeat split. Qed.
